@@ -49,6 +49,7 @@ class Sym:
         self._memo = {}
         self._mutborrowed = None
         self.dom = None
+        self.types = {}      # expression -> type string of the local it was read from
 
     # ---- stability
     def _scan_mut_borrows(self):
@@ -97,6 +98,8 @@ class Sym:
         else:
             e = ("local", l, fn.local_name(l))
         self._memo[l] = e
+        if isinstance(e, tuple) and e[0] in ("field", "call", "callat", "index", "variant"):
+            self.types.setdefault(e, fn.local_ty(l))
         return e
 
     def place(self, pl):
@@ -141,6 +144,10 @@ class Sym:
             v = op_const(op)
             if v is not None:
                 return ("const", v, op[1])
+            if isinstance(op[2], list) and op[2] and op[2][0] == "static":
+                return ("static", op[2][1])
+            if len(op) > 3 and isinstance(op[3], str):
+                return ("static", op[3])      # named const item (e.g. a const array)
             return ("constx", str(op[2]), op[1])
         return ("unknown",)
 
@@ -266,10 +273,15 @@ def atoms(e, acc=None):
     if not isinstance(e, tuple) or not e:
         return acc
     k = e[0]
-    if k in ("param", "local", "callat", "unknown", "constx"):
+    if k in ("param", "local", "callat", "unknown", "constx", "static"):
         acc.append(e)
     elif k == "call":
-        acc.append(e)
+        if e[1] in ("min", "max", "clamp", "saturating_sub", "saturating_add", "abs",
+                    "wrapping_add", "wrapping_sub", "wrapping_mul"):
+            for a in e[2]:
+                atoms(a, acc)
+        else:
+            acc.append(e)
     elif k == "field":
         acc.append(e)
     elif k in ("bin",):
@@ -319,4 +331,6 @@ def fmt(e):
         return "%s{%s}" % (e[3] or e[1], ", ".join(fmt(a) for a in e[4]))
     if k == "index":
         return "%s[%s]" % (fmt(e[1]), fmt(e[2]))
+    if k == "static":
+        return e[1].rsplit("::", 1)[-1]
     return str(e)
